@@ -81,13 +81,6 @@ def c06_once(rep, tier):
         rep.sample({"once_scenario": hs[0][0]["threads"], "history": hs[0][1]["ev"]})
 
 
-def replay(prop, obj, path):
-    sc = dict(obj["scenario"])
-    print("scenario %s\nschedule %s" % (json.dumps(sc), obj["schedule"]))
-    print("VIOLATION property=%s replay=%s (recorded history: %s)" % (prop, path, json.dumps(obj.get("history"))[:2000]))
-    return 1
-
-
 def c08_concurrent(rep, tier):
     """Two or three threads logging at once through destinations that fail: exact accounting of reports whatever the interleaving."""
     quick = tier == "quick"
@@ -138,3 +131,8 @@ def c02_raced_ids(rep, tier):
         if h["dup_levels"] or a[2] == "duplicate_task_level":
             rep.violation("two messages share one (task_uuid, task_level) when a preserve_context callable is invoked from two threads at once",
                           {"engine": "conc", "module": "checks_conc_extra", "scenario": sc, "schedule": h["schedule"], "history": h["ev"]})
+
+
+def replay(prop, obj, path):
+    import engine_conc
+    return engine_conc.replay(prop, obj, path)
